@@ -23,3 +23,15 @@ package crypto
 //@   ensures r <==> sigOKc(addr, content(hash), content(signature))
 //@ trusted func PubkeyToAddress(p ecdsa.PublicKey) (r common.Address)
 //@   ensures r == pubAddr(p)
+
+// ---------------------------------------------------------------- C11: signature values
+// Accepted values: 1 <= r,s < N, v in {0,1}, and (homestead rule, used for every transaction signer)
+// s in the lower half: high-s twins of a signature are rejected.
+//@ func ValidateSignatureValues(v byte, r, s *big.Int, homestead bool) (ok bool)
+//@   for C11
+//@   requires r != nil && s != nil && secp256k1N != nil && secp256k1halfN != nil && common.Big1 != nil && common.Big1.v == 1
+//@   ensures [rangeOfR] ok ==> 1 <= r.v && r.v < secp256k1N.v
+//@   ensures [rangeOfS] ok ==> 1 <= s.v && s.v < secp256k1N.v
+//@   ensures [lowS] ok && homestead ==> s.v <= secp256k1halfN.v
+//@   ensures [recoveryId] ok ==> v == 0 || v == 1
+//@   ensures [complete] 1 <= r.v && r.v < secp256k1N.v && 1 <= s.v && s.v < secp256k1N.v && (v == 0 || v == 1) && (homestead ==> s.v <= secp256k1halfN.v) ==> ok
